@@ -70,7 +70,7 @@ class Shard(object):
     def __init__(self, prop, part, cfg, shard, nshards, tier, seed, outdir, timeout, only=None):
         self.spec = dict(prop=prop, part=part, cfg=cfg, shard=shard, nshards=nshards, tier=tier,
                          seed=seed, outdir=outdir, skip=[], only=only)
-        self.tag = "%s.%s.%s.%d" % (prop, part, cfg, shard)
+        self.tag = ("%s.%s.%s.%d" % (prop, part, cfg, shard)).replace(":", "_")
         self.timeout = timeout
         self.crashes = []      # list of dicts
         self.result = None
